@@ -42,6 +42,11 @@ pub struct Config {
     spurious: u32,
     w_feed: u32,
     w_poll: u32,
+    #[serde(default)]
+    rebuild: bool,
+    /// kind of the injected read error: 0 ConnectionReset, 1 Interrupted, 2 TimedOut
+    #[serde(default)]
+    read_err_kind: u8,
 }
 
 #[derive(Serialize, Deserialize, Clone, Debug, PartialEq)]
@@ -69,6 +74,9 @@ pub enum Action {
     FlushPlan(u8),
     ShutdownPlan(u8),
     FireWaker,
+    /// take the Framed apart and put it together again (0 replace_codec, 1 into_map_codec,
+    /// 2 into_map_io, 3 into_parts/from_parts): both buffers travel along
+    Rebuild(u8),
 }
 
 // ------------------------------------------------------------------------------------------------
@@ -77,9 +85,11 @@ pub enum Action {
 #[derive(Debug)]
 enum ReadEv {
     Chunk(Vec<u8>),
-    Err,
+    Err(u8),
     Eof,
 }
+
+const READ_ERR_MSG: &str = "injected read error";
 
 #[derive(Debug, Clone, Copy, PartialEq)]
 enum WPlan {
@@ -142,7 +152,10 @@ impl AsyncRead for SimIo {
                 }
                 Poll::Ready(Ok(()))
             }
-            Some(ReadEv::Err) => Poll::Ready(Err(io::Error::new(io::ErrorKind::ConnectionReset, "injected read error"))),
+            Some(ReadEv::Err(k)) => Poll::Ready(Err(io::Error::new(
+                [io::ErrorKind::ConnectionReset, io::ErrorKind::Interrupted, io::ErrorKind::TimedOut][k as usize % 3],
+                READ_ERR_MSG,
+            ))),
             Some(ReadEv::Eof) => {
                 self.eof_latched = true;
                 Poll::Ready(Ok(()))
@@ -410,6 +423,7 @@ trait ErasedFramed {
     fn poll_flush(&mut self, cx: &mut Context<'_>) -> Poll<Result<(), io::Error>>;
     fn poll_close(&mut self, cx: &mut Context<'_>) -> Poll<Result<(), io::Error>>;
     fn encode_ref(&mut self, item: &[u8], dst: &mut BytesMut);
+    fn rebuild(&mut self, how: u8);
 }
 
 fn map_item<T>(r: Poll<Option<Result<T, io::Error>>>, conv: impl Fn(T) -> Vec<u8>) -> Poll<Item> {
@@ -417,7 +431,7 @@ fn map_item<T>(r: Poll<Option<Result<T, io::Error>>>, conv: impl Fn(T) -> Vec<u8
         Poll::Pending => Poll::Pending,
         Poll::Ready(None) => Poll::Ready(Item::End),
         Poll::Ready(Some(Ok(f))) => Poll::Ready(Item::Frame(conv(f))),
-        Poll::Ready(Some(Err(e))) => Poll::Ready(if e.kind() == io::ErrorKind::ConnectionReset {
+        Poll::Ready(Some(Err(e))) => Poll::Ready(if e.to_string().contains(READ_ERR_MSG) {
             Item::IoErr
         } else {
             Item::DecodeErr
@@ -452,6 +466,20 @@ macro_rules! erased {
                 let mut c: $codec = $mk;
                 let it: $itemty = $toitem(item.to_vec());
                 let _ = Encoder::<$itemty>::encode(&mut c, it, dst);
+            }
+            fn rebuild(&mut self, how: u8) {
+                let spare: $codec = $mk;
+                let old = *Pin::into_inner(std::mem::replace(&mut self.0, Box::pin(Framed::new(SimIo::default(), spare))));
+                let new = match how {
+                    0 => {
+                        let fresh: $codec = $mk;
+                        old.replace_codec(fresh)
+                    }
+                    1 => old.into_map_codec(|c| c),
+                    2 => old.into_map_io(|io| io),
+                    _ => Framed::from_parts(old.into_parts()),
+                };
+                self.0 = Box::pin(new);
             }
         }
     };
@@ -554,6 +582,11 @@ fn run_c13(cfg: &Config, ch: &mut Chooser<Action>, ctx: &mut RunCtx) -> Option<V
                 en.push((Action::FeedErr, 1));
             }
         }
+        if cfg.rebuild && !draining {
+            for how in 1..4u8 {
+                en.push((Action::Rebuild(how), 1));
+            }
+        }
         let ended = got.last() == Some(&Item::End);
         if !ended || ended_polls < 2 {
             if !parked || task.woken() {
@@ -606,8 +639,13 @@ fn run_c13(cfg: &Config, ch: &mut Chooser<Action>, ctx: &mut RunCtx) -> Option<V
                 }
                 ev!(ctx, "feed eof");
             }
+            Action::Rebuild(how) => {
+                f.rebuild(how);
+                ctx.bump("probe.rebuilt_mid_stream");
+                ev!(ctx, "rebuild {how}");
+            }
             Action::FeedErr => {
-                f.io().rq.push_back(ReadEv::Err);
+                f.io().rq.push_back(ReadEv::Err(cfg.read_err_kind));
                 err_fed = true;
                 fed_at_err = fed;
                 ctx.bump("fault.read_error");
@@ -712,7 +750,7 @@ fn run_c13(cfg: &Config, ch: &mut Chooser<Action>, ctx: &mut RunCtx) -> Option<V
     } else if bytes_got.len() != stream.len() || got.last() != Some(&Item::End) {
         return Some(Violation::new("frames-missing", format!("BytesCodec delivered {} of {} bytes", bytes_got.len(), stream.len())));
     }
-    if err_fed && io_errs == 0 && f.io().rq.iter().all(|e| !matches!(e, ReadEv::Err)) {
+    if err_fed && io_errs == 0 && f.io().rq.iter().all(|e| !matches!(e, ReadEv::Err(_))) {
         return Some(Violation::new("io-error-swallowed", "the injected read error never surfaced as a stream item"));
     }
     ctx.nontrivial = got.len() >= 2 && f.io().read_pendings >= 1;
@@ -809,6 +847,11 @@ fn run_c14(cfg: &Config, ch: &mut Chooser<Action>, ctx: &mut RunCtx) -> Option<V
             }
             if f.io().write_waker.is_some() {
                 en.push((Action::FireWaker, cfg.w_feed * 2));
+            }
+            if cfg.rebuild && !closed {
+                for how in 0..4u8 {
+                    en.push((Action::Rebuild(how), 1));
+                }
             }
         }
         let Some(a) = ch.choose(&en) else { break };
@@ -968,6 +1011,13 @@ fn run_c14(cfg: &Config, ch: &mut Chooser<Action>, ctx: &mut RunCtx) -> Option<V
                 }
                 f.io().splans.push_back(if c == 1 { OpPlan::Pending } else { OpPlan::Err })
             }
+            Action::Rebuild(how) => {
+                f.rebuild(how);
+                if expected.len() > f.io().written.len() {
+                    ctx.bump("probe.rebuilt_with_bytes_buffered");
+                }
+                ev!(ctx, "rebuild {how}");
+            }
             Action::FireWaker => {
                 if let Some(w) = f.io().write_waker.take() {
                     w.wake();
@@ -1032,6 +1082,8 @@ impl Engine for IoSim {
             spurious: *rng.pick(&[0, 0, 1, 2]),
             w_feed: *rng.pick(&[1, 2, 4]),
             w_poll: *rng.pick(&[2, 4, 8]),
+            rebuild: rng.chance(1, 4),
+            read_err_kind: rng.below(3) as u8,
         }
     }
     fn max_actions(_: &str, cfg: &Config) -> usize {
@@ -1063,9 +1115,9 @@ impl Engine for IoSim {
     fn describe(prop: &str) -> Describe {
         Describe {
             rule: if prop == "C13" {
-                "byte streams (0..64 bytes over an alphabet with the codec's delimiters / length prefixes incl. a poison length; long streams of 1-40 KiB with frames around the 1 KiB and 8 KiB marks and larger than 8 KiB) cut into read chunks by seeded Feed(n) actions, Pending wherever the stream is polled with nothing available, optional single read error, EOF; items (frames and decode errors, decoding goes on behind an error) compared one by one with the same codec applied to the undivided stream (BytesCodec: concatenation), a stateful partner codec yields an end-of-stream frame from the empty buffer; whenever the stream returns Pending or the injected I/O error, every item complete in the bytes read before has been yielded; non-trivial = >=2 items and >=1 Pending read; distinct = distinct event-trace hash".into()
+                "byte streams (0..64 bytes over an alphabet with the codec's delimiters / length prefixes incl. a poison length; long streams of 1-40 KiB with frames around the 1 KiB and 8 KiB marks and larger than 8 KiB) cut into read chunks by seeded Feed(n) actions, Pending wherever the stream is polled with nothing available, optional single read error (ConnectionReset / Interrupted / TimedOut: each must surface as an item), EOF, in a quarter of the runs the Framed is taken apart and rebuilt mid-stream (into_map_codec / into_map_io / into_parts+from_parts); items (frames and decode errors, decoding goes on behind an error) compared one by one with the same codec applied to the undivided stream (BytesCodec: concatenation), a stateful partner codec yields an end-of-stream frame from the empty buffer; whenever the stream returns Pending or the injected I/O error, every item complete in the bytes read before has been yielded; non-trivial = >=2 items and >=1 Pending read; distinct = distinct event-trace hash".into()
             } else {
-                "item sequences (<=12 items, sizes 0,1,17,LW-1,LW,LW+1,3000,HW-1,HW,HW+1,3HW) and transport scripts (accept k bytes / runs of 20-40 small accepts / Pending / zero / error / EINTR; flush and shutdown Ok / Pending / error) interleaved with poll_ready / start_send / poll_flush / poll_close under strict-wake; byte ledger and result invariants after every call; non-trivial = >=1 item accepted and a flush or close succeeded; distinct = distinct event-trace hash".into()
+                "item sequences (<=12 items, sizes 0,1,17,LW-1,LW,LW+1,3000,HW-1,HW,HW+1,3HW) and transport scripts (accept k bytes / runs of 20-40 small accepts / Pending / zero / error / EINTR; flush and shutdown Ok / Pending / error) and, in a quarter of the runs, rebuilds of the Framed (replace_codec / into_map_codec / into_map_io / into_parts+from_parts, which carry both buffers along) interleaved with poll_ready / start_send / poll_flush / poll_close under strict-wake; byte ledger and result invariants after every call; non-trivial = >=1 item accepted and a flush or close succeeded; distinct = distinct event-trace hash".into()
             },
             real: vec!["actix_codec::Framed (Stream and Sink faces)", "actix_codec::LinesCodec", "actix_codec::BytesCodec"],
             stub: vec!["transport (SimIo: scripted AsyncRead/AsyncWrite)", "length-prefixed codec (harness partner with decode error and decode_eof tail)", "executor (strict-wake manual polling)"],
@@ -1074,9 +1126,9 @@ impl Engine for IoSim {
     }
     fn required_probes(prop: &str, _tier: Tier) -> Vec<&'static str> {
         if prop == "C13" {
-            vec!["probe.pending_returned", "probe.end_reached", "probe.io_error_surfaced", "probe.frame_larger_than_hw", "probe.items_behind_decode_error", "probe.io_error_after_decode_error", "probe.eof_frame_from_empty_buffer"]
+            vec!["probe.pending_returned", "probe.end_reached", "probe.io_error_surfaced", "probe.frame_larger_than_hw", "probe.items_behind_decode_error", "probe.io_error_after_decode_error", "probe.eof_frame_from_empty_buffer", "probe.rebuilt_mid_stream"]
         } else {
-            vec!["probe.partial_progress", "probe.sink_pending", "probe.close_ok", "probe.write_zero_reported", "probe.ready_after_flush", "probe.interrupted_reported", "probe.more_than_16_writes_in_one_call"]
+            vec!["probe.partial_progress", "probe.sink_pending", "probe.close_ok", "probe.write_zero_reported", "probe.ready_after_flush", "probe.interrupted_reported", "probe.more_than_16_writes_in_one_call", "probe.rebuilt_with_bytes_buffered"]
         }
     }
 }
